@@ -54,6 +54,7 @@ class Interp(object):
         self.ser_hook = ser_hook  # wraps serializer functions (C13)
         self.tls = threading.local()
         self.after_api = None  # called after every eliot API call that returned (C11 acknowledgements)
+        self.explicit_loggers = False  # pass an explicit eliot.Logger() to the calls that take one, for a third of the nodes
         self.allow_defer = False  # run remote nodes marked "defer" only after the whole program (parent already finished)
         self.deferred = []
 
@@ -68,6 +69,12 @@ class Interp(object):
     def note(self, kind, **data):
         if self.tape is not None:
             self.tape.add(kind, **data)
+
+    def lg(self, nid):
+        """Some calls name the production logger explicitly (the API accepts one everywhere); the rest use the default."""
+        if self.explicit_loggers and isinstance(nid, int) and nid % 3 == 0:
+            return (eliot.Logger(),)
+        return ()
 
     def api(self, what, fn, *a, **kw):
         """Call an eliot API; it must not raise."""
@@ -212,7 +219,7 @@ class Interp(object):
         elif style == "Message.new.write":
             ok, m = self.api("Message.new", Message.new, message_type=t, **fields)
             if ok:
-                self.api("Message.write", m.write)
+                self.api("Message.write", m.write, *self.lg(node["nid"]))
         elif style == "Message.bind.write":
             # fields split between new() and one or two bind() calls; bind must not lose or overwrite earlier fields
             keys = list(fields)
@@ -234,7 +241,7 @@ class Interp(object):
             mt = self._message_type(t, decl)
             ok, m = self.api("MessageType()", mt, **fields)
             if ok:
-                self.api("Message.write", m.write)
+                self.api("Message.write", m.write, *self.lg(node["nid"]))
         else:
             raise AssertionError(style)
         gt = {"kind": "message", "type": t, "fields": self._expect(fields, decl), "nid": node["nid"]}
@@ -246,7 +253,7 @@ class Interp(object):
         try:
             raise exc
         except Exception:
-            self.api("write_traceback", write_traceback)
+            self.api("write_traceback", eliot.writeTraceback if node["nid"] % 2 else write_traceback, *self.lg(node["nid"]))
         f = self._fail_fields(exc, getattr(self, "extractors", None))
         f["traceback"] = ANYTEXT
         gt = {"kind": "message", "type": "eliot:traceback", "fields": f, "nid": node["nid"], "tb": True}
@@ -302,15 +309,15 @@ class Interp(object):
 
         # ---- start the action
         if style in ("with", "ctx_finish", "run_finish", "ctx_finish_inside", "pre_created"):
-            ok, action = self.api("start_action", start_action, action_type=t, **start)
+            ok, action = self.api("start_action", eliot.startAction if node["nid"] % 5 == 0 else start_action, *self.lg(node["nid"]), action_type=t, **start)
         elif style == "start_task":
-            ok, action = self.api("start_task", start_task, action_type=t, **start)
+            ok, action = self.api("start_task", eliot.startTask if node["nid"] % 2 else start_task, *self.lg(node["nid"]), action_type=t, **start)
         else:
             at = self._action_type(t, node["decl_start"], node["decl_success"])
             if style == "ActionType":
-                ok, action = self.api("ActionType()", at, **start)
+                ok, action = self.api("ActionType()", at, *self.lg(node["nid"]), **start)
             else:
-                ok, action = self.api("ActionType.as_task", at.as_task, **start)
+                ok, action = self.api("ActionType.as_task", at.as_task, *self.lg(node["nid"]), **start)
         if not ok:
             return
         self._attach(None if (new_tree or cur is None) else gt_children, gt)
@@ -559,7 +566,7 @@ class Interp(object):
               "status": "started", "end": None, "children": [], "remote": True}
         if api == "continue_task":
             gt["start"]["nid"] = node["nid"]
-            ok, tid = self.api("serialize_task_id", cur.serialize_task_id)
+            ok, tid = self.api("serialize_task_id", cur.serializeTaskId if node["nid"] % 4 == 0 else cur.serialize_task_id)
             if not ok:
                 return
             self._attach(gt_children, gt)  # the position is reserved now
@@ -573,7 +580,8 @@ class Interp(object):
 
             def remote(expect_outer):
                 self.probe(expect_outer, "remote side of %s before continue_task" % node["nid"])
-                ok, action = self.api("continue_task", Action.continue_task, task_id=tid, action_type=node["type"], **dict(node["start"], nid=node["nid"]))
+                ok, action = self.api("continue_task", Action.continueTask if node["nid"] % 4 == 1 else Action.continue_task, task_id=tid,
+                                      action_type=node["type"], **dict(node["start"], nid=node["nid"]))
                 if not ok:
                     return
                 self._run_remote_action(node, gt, action, expect_outer)
